@@ -80,8 +80,14 @@ func expansionActive(body []byte) bool {
 // to TAG.
 func Assigned(script []byte, name string, tag string) (val []byte, ok bool) {
 	if nd.Concrete() {
-		return realShell(script, name)
+		return RealShell(script, name)
 	}
+	return AssignedModel(script, name, tag)
+}
+
+// AssignedModel is the lexing model used under the engine (exported so that
+// modelcheck/ can compare it natively with the real shell).
+func AssignedModel(script []byte, name string, tag string) (val []byte, ok bool) {
 	head := name + "=$(cat <<"
 	for i := 0; i+len(head) <= len(script); i++ {
 		// assignments start at the beginning of a line
@@ -124,6 +130,17 @@ func Assigned(script []byte, name string, tag string) (val []byte, ok bool) {
 				if !quoted && expansionActive(body) {
 					return nil, false
 				}
+				// a trailing backslash joins the terminator line to the body
+				if !quoted && len(body) > 0 && body[len(body)-1] == '\\' {
+					return nil, false
+				}
+				// the command substitution must be closed right after the
+				// terminator line; anything else is shell code of its own
+				// (e.g. the rest of a body that contains a terminator line)
+				after := k + len(tag) + 1
+				if !hasPrefixAt(script, after, ")\n") {
+					return nil, false
+				}
 				return TrimNL(body), true
 			}
 		}
@@ -132,7 +149,8 @@ func Assigned(script []byte, name string, tag string) (val []byte, ok bool) {
 	return nil, false
 }
 
-func realShell(script []byte, name string) ([]byte, bool) {
+// RealShell runs script with /bin/sh and reports the value of variable name.
+func RealShell(script []byte, name string) ([]byte, bool) {
 	dir, err := os.MkdirTemp("", "zzsh")
 	if err != nil {
 		return nil, false
